@@ -187,12 +187,18 @@ def sv_quoted(rng, reader):
         content, cls = f"it{other}s {w()}", "quoted:other-quote"
     elif r < 0.8:
         content, cls = rng.choice(("NULL", "12", "2001-01-01", "END", "1.5e3",
-                                   "group", "12:00")), "quoted:value-like"
+                                   "group", "12:00", "20010101T120000", "2004-W10",
+                                   "2001-01-01T12", "20010101", "2001-01",
+                                   "12:00:00,5", "T12:00", "2001-001T1200",
+                                   "inf", "0x1F", "1_000")), "quoted:value-like"
     elif r < 0.88:
         content, cls = rng.choice(("a=b", "(x)", "{y}", "a,b", "<m>", "a;b", "#h",
                                    "/* c */", "a+b")), "quoted:reserved"
-    elif r < 0.94:
+    elif r < 0.91:
         content, cls = f"{w()}\n  {w()}", "quoted:linebreak"
+    elif r < 0.94:
+        kw = rng.choice(("END", "end", "End;", "END_GROUP", "GROUP = x", "# c"))
+        content, cls = f"{w()}\n{kw}\n{w()}", "quoted:keyword-on-own-line"
     else:
         content, cls = f"{w()}-\n   {w()}", "quoted:dash-continuation"
     expected = fold(content) if reader in ODL_FAMILY_READ else content
@@ -275,6 +281,25 @@ def gen_value(rng, reader, doc, toks, ctx, depth=0, allow_units=True,
             doc.meta.add(("units-after:" + cls.split(":")[0], ctx))
             return HQ(exp, u) if in_set else Q(exp, u)
         return exp
+    if depth == 0 and not in_set and rng.random() < 0.04:
+        # a long sequence of short multi-word strings: every encoder has to
+        # wrap it, and the wrap points fall next to dashes and quotes
+        toks.append(Tok(LP, "("))
+        items = []
+        for i in range(rng.randint(8, 16)):
+            if i:
+                toks.append(Tok(COMMA, ","))
+            a, b = rng.choice(WORDS), rng.choice(WORDS)
+            content = rng.choice((f"{a} - {b}", f"{a}- {b}", f"{a} {b}", f"{a} -{b}",
+                                  f"{a}_{b}", f"{a} {b} {a}"))
+            q = rng.choice("\"'")
+            exp = fold(content) if reader in ODL_FAMILY_READ else content
+            toks.append(Tok(VAL, q + content + q, "quoted:words-with-dash", True,
+                            value=exp))
+            items.append(exp)
+        toks.append(Tok(RP, ")"))
+        doc.meta.add(("seq-of-dashed-strings", ctx))
+        return items
     # inside a set: nested sets, and (rarely) a sequence, which the result can
     # only hold as some hashable sequence type
     seq_in_set = in_set and not odl and rng.random() < 0.25
